@@ -195,6 +195,16 @@ func configStream(seed uint64, n int) {
 			}
 		}
 	}
+	// the coprocessor's register block in page zero, base 0 included: the units sit exactly at the configured base
+	// (every memory type; on the Linear16K..48K machines there is no memory at $DE00 at all)
+	for _, s := range memSpecs {
+		for _, fl := range []uint8{1, 4, 5} {
+			emit(configCase(models[r.Intn(2)], s, "acme", 0, map[uint8]string{}, fl, 0x0000))
+			count("config.zeropage")
+		}
+		emit(configCase(models[r.Intn(2)], s, "acme", 0, map[uint8]string{}, []uint8{1, 4, 5}[r.Intn(3)], []uint16{0x0020, 0x0040, 0x00E8, 0x0080}[r.Intn(4)]))
+		count("config.zeropage")
+	}
 	for i := 0; i < n; i++ {
 		m := models[r.Intn(2)]
 		s := memSpecs[r.Intn(len(memSpecs))]
@@ -217,6 +227,10 @@ func configStream(seed uint64, n int) {
 		base := uint16(0x0200)
 		if r.Chance(40) {
 			base = []uint16{0x0280, 0x02E8, 0x0340, 0x03A8}[r.Intn(4)]
+		}
+		if r.Chance(12) {
+			// page zero, base 0 included
+			base = []uint16{0x0000, 0x0000, 0x0020, 0x00E8}[r.Intn(4)]
 		}
 		emit(configCase(m, s, asms[r.Intn(4)], uint8([]int{0x2D, 0x10, 0x7F, 0x00, 0xFF, 0x02}[r.Intn(6)]), io, flags, base))
 		count("config.random")
